@@ -90,6 +90,16 @@ def _walk(z, reads):
       for ch in z.children():
         _walk(ch, reads)
       return
+  if d.kind() == z3.Z3_OP_ITE:
+    # a SELECT does not compute on the branch it does not take: when the condition is decided, only that branch is read.
+    # (A multiplication by a coefficient that happens to be 0 still reads its other operand: 0 * inf = NaN.)
+    cnd = z3.simplify(z.arg(0))
+    if z3.is_true(cnd):
+      _walk(z.arg(1), reads)
+      return
+    if z3.is_false(cnd):
+      _walk(z.arg(2), reads)
+      return
   for ch in z.children():
     _walk(ch, reads)
 
